@@ -20,8 +20,14 @@ var c13Corpus = [][]string{
 	{"BEGIN", "{", "x", "=", "match", "(", "2", ")", "{", "1", "=>", "\"one\"", ",", "2", ",", "3", "=>", "\"many\"", ",", "z", "=>", "\"other\"", "}", "\n", "print", "x", "}"},
 	{"BEGIN", "{", "i", "=", "0", "\n", "while", "(", "i", "<", "2", ")", "{", "i", "++", "\n", "if", "(", "i", "==", "2", ")", "break", "}", "\n", "print", "i", "}"},
 	{"$", ".", "a", "~", "/2/", "{", "print", "$", ".", "a", "is", "number", ",", "!", "true", ",", "-", "1", "}", "\n", "END", "{", "print", "$index", "is", "unknown", "}"},
+	{"BEGIN", "{", "x", "=", "-", "1", "\n", "print", "x", "*", "-", "2", ",", "-", "(", "1", ")", ",", "-", "-", "1", ",", "0", "-", "3", "}"},
 	{"BEGIN", "{", "printf", "(", "\"%s-%s|\"", ",", "\"a\"", ",", "'b'", ")", "\n", "n", "=", "null", "\n", "print", "n", "==", "null", ",", "1", "<=", "2", "&&", "2", "!=", "3", "}"},
 }
+
+// what each corpus program prints on c13Doc (read off the programs, not computed by the
+// implementation: a layout-dependent defect that also hits the canonical spelling must
+// not cancel out)
+var c13Gold = []string{"7 a\n", "3\n", "big\nsmall\n", "0\n2\n", "1 0\n2 1\n3 2\n", "3\n", "many\n", "2\n", "true false -1\nfalse\n", "2 -1 1 -3\n", "a-b|true true\n"}
 
 var c13Doc = []any{map[string]any{"a": 2.0}, map[string]any{"a": 0.0}}
 
@@ -71,8 +77,9 @@ func c13NewlineAllowed(toks []string, i int) bool {
 // VHC13Whitespace: every gap of a program filled with symbolic horizontal whitespace
 // (space, tab, CR) at once: all layouts of that shape are one path.
 func VHC13Whitespace() {
-	toks := c13Corpus[vh.Choose("prog", len(c13Corpus))]
-	want, wk := c13Run(c13Canonical(toks))
+	pi := vh.Choose("prog", len(c13Corpus))
+	toks := c13Corpus[pi]
+	want, wk := c13Gold[pi], OK
 	src := ""
 	for i, t := range toks {
 		if i > 0 {
@@ -91,8 +98,9 @@ func VHC13Whitespace() {
 // VHC13Newlines: line breaks and comments in up to two permitted gaps at a time
 // (each gap symbolically either a space or a newline / comment).
 func VHC13Newlines() {
-	toks := c13Corpus[vh.Choose("prog", len(c13Corpus))]
-	want, wk := c13Run(c13Canonical(toks))
+	pi := vh.Choose("prog", len(c13Corpus))
+	toks := c13Corpus[pi]
+	want, wk := c13Gold[pi], OK
 	var allowed []int
 	for i := 0; i+1 < len(toks); i++ {
 		if c13NewlineAllowed(toks, i) {
@@ -116,8 +124,10 @@ func VHC13Newlines() {
 			b := vh.Byte("nl" + itoa(i))
 			vh.Assume(vh.OneOf(b, " \n"))
 			if comment && i == p1 {
-				c := vh.Bytes("cm", 2)
-				vh.Assume(vh.And(vh.Not(vh.OneOf(c[0], "\n")), vh.Not(vh.OneOf(c[1], "\n"))))
+				c := vh.Bytes("cm", vh.Choose("cmlen", 3)) // comments of 0-2 bytes: `#` directly before the line end included
+				for ci := 0; ci < len(c); ci++ {
+					vh.Assume(vh.Not(vh.OneOf(c[ci], "\n")))
+				}
 				src += " #" + c + "\n"
 			}
 			src += " " + string([]byte{b}) + " "
